@@ -58,6 +58,11 @@ func (s *pathState) set(i string, b bool) {
 	s.mu.Unlock()
 }
 
+// (A one-shot plugin failure is armed only right before a generation on a transmitting path of the
+// same interface: the advertisers also build periodic RAs on their own as virtual time passes, and
+// would consume a failure armed earlier at an instant the history does not name.  When that
+// advertiser has already ended, the failure stays pending until the next scrape / API request.)
+//
 // failingPlugin stands for any plugin whose Apply can fail while an RA is being generated (the
 // wildcards, when their address or route source fails; Prepare would replace an injected source of
 // a real wildcard by the operating system's, so the harness brings its own plugin): it adds nothing
